@@ -110,6 +110,13 @@ def make_queries(o, rnd, heavy):
     arrs2 = [np.zeros(3), np.array([1.0, 1.0, 1.0]), np.array([0.0, 0.5, -0.5]), np.array([1.0, 0.5, 0.0])]
     q.append(("trace_generic(arrays full field,%r)" % (w,),
               (lambda w=w, a=arrs2: ray_state(o, o.trace_generic(a[0], a[1], a[2], a[3], w))), arrs2))
+    # a caller-owned Distribution object (the analyses reuse one object across fields): its point
+    # arrays are arguments like any other
+    from optiland.distribution import create_distribution
+    dist = create_distribution("hexapolar")
+    dist.generate_points(3)
+    q.append(("trace(0,%r,%r,distribution object)" % (Hy, w),
+              (lambda Hy=Hy, w=w, d=dist: ray_state(o, o.trace(0.0, Hy, w, 3, d))), [dist.x, dist.y]))
     for name in ("f1", "f2", "F1", "F2", "P1", "P2", "N1", "N2", "EPL", "EPD", "XPL", "XPD", "FNO", "magnification",
                  "invariant", "marginal_ray", "chief_ray"):
         q.append(("paraxial.%s" % name, (lambda name=name: getattr(o.paraxial, name)()), []))
